@@ -7,7 +7,7 @@ KERNELS = ['px_propagate', 'px_rot_x', 'px_rot_y', 'px_rot_z', 'cs_localize_px',
            'geom_localize_px', 'geom_globalize_px', 'surf_trace_paraxial', 'translate']
 THEOREMS = ['C04_pstep_matrix', 'C04_ptrace_is_atrace', 'C04_atrace_abcd', 'C04_atrace_linear',
             'C04_lagrange_records', 'C04_mdet_sysmat', 'C04_lagrange_invariant', 'C04_sysmats_last',
-            'C04_mapply_mmul', 'C04_mdet_surf']
+            'C04_mapply_mmul', 'C04_mdet_surf', 'C04_focal_from_matrix']
 COQ_TARGETS = ['Model/Paraxial.vo']
 TRUSTED_BASE = BASE_TRUSTED + [
     'hand model coq/Model/Paraxial.v (composition of traces into f1 f2 F1 F2 P1 P2 N1 N2 EPL EPD XPL XPD FNO '
@@ -18,8 +18,9 @@ TRUSTED_BASE = BASE_TRUSTED + [
 RULE = ('seeded axially symmetric prescriptions of 1-12 planes/spheres/conics/aspheres incl. mirrors, catalogue and ideal media, '
         'stop first/interior/last, finite and infinite objects, EPD/imageFNO/objectNA, angle/height fields; every Paraxial query '
         'compared with the Coq model (FOps) and with independent matrix optics; non-trivial = distinct lens with a finite f2')
-PARTIAL = ['cardinal points / pupils: the theorem is about the trace records (every record = accumulated ABCD matrix applied to the launch); '
-           'that f2, F2, EPL, ... are the stated entries of those matrices is carried by the model correspondence and the matrix-optics oracle, not by a theorem']
+PARTIAL = ['cardinal points / pupils: f2 = -1/C and F2 = -A/C of the system matrix are theorems (focal_from_matrix); for f1, F1, P, N, EPL, XPL, EPD, XPD, '
+           'magnification the theorem is about the trace records they are computed from (record = accumulated ABCD matrix applied to the launch) and the '
+           'stated matrix entries are carried by the model correspondence and the matrix-optics oracle']
 
 
 def kernel_cases(ctx):
